@@ -105,7 +105,7 @@ fn space(ctx: &Ctx, rep: &mut Report, n: usize) {
                 }
                 _ => match confirm(judge, Case::w32(kind_name, &w)) {
                     Some(v) => acc.violate(v),
-                    None => monitor::machinery_fail("C09 mismatch not reproduced"),
+                    None => super::unreproduced("C09 mismatch not reproduced"),
                 },
             }
             if acc.samples.is_empty() && (pi as u64 + ctx.seed) % 157 == 0 {
